@@ -31,7 +31,7 @@ def functions(tree):
                 nested(it, prefix + it["name"] + "::")
             elif k == "Impl":
                 st = it["self_ty"].replace(" ", "")
-                tr = it["trait"]["s"] if it.get("trait") else None
+                tr = it["trait"]["full"].replace(" ", "") if it.get("trait") else None
                 for f in it["items"]:
                     if f.get("k") == "Fn":
                         nm = f"{st}::{f['name']}"
@@ -228,6 +228,8 @@ def expr_skel(e):
         return "return " + expr_skel(e.get("e"))
     if k == "Array":
         return "[" + ",".join(expr_skel(x) for x in e["elems"]) + "]"
+    if k == "Assign":
+        return expr_skel(e["lhs"]) + "=" + expr_skel(e["rhs"])
     return k or "?"
 
 
